@@ -216,6 +216,30 @@ def r3_reconstruct(facts, rep):
             bm[0][1], cells.get("base"), cells.get("unit") if unit_has else [repr(e[3]) for e in log if e[0] == "insert"],
             [(repr(e[1]), repr(e[2])) for e in convs]), r["site"], sample={"path_condition": [repr(p)[:60] + "=" + str(b) for p, b in r["pc"]]})
     rep.floor("C04-R3", "reconstruct paths with a re-derived unit", n, 6)
+    # the scratch table of base powers is the table of the unit at hand: over two derived units, every filling of the table
+    # (Unit::powers) starts from an empty one - fresh, or cleared since the last filling, also when the first unit was skipped
+    res2 = U.reconstruct_summary(facts, n_items=2)
+    if res2 is not None:
+        stale = []
+        n2 = 0
+        for r in res2:
+            if r["kind"] == "panic":
+                continue
+            clean = False
+            fills = 0
+            for e in r["log"]:
+                if e[0] in ("scratch-fresh", "scratch-clear"):
+                    clean = True
+                elif e[0] == "unit.powers":
+                    fills += 1
+                    if not clean:
+                        stale.append("the base powers of %s are added to a table that still holds those of the unit before" % (e[1],))
+                    clean = False
+            if fills >= 2:
+                n2 += 1
+        rep.ob("C04-R3", "reconstruct:scratch-table-per-unit", not stale and n2 >= 1,
+               "; ".join(sorted(set(stale))[:2]) if stale else "every unit's base powers are read into an empty table (%d two-unit path(s))" % n2,
+               facts.fn("compound::Compound::mul::reconstruct").site())
 
 
 def r9_operand_faithful(facts, rep, rule="C04-R9"):
